@@ -8,10 +8,11 @@ an empty item list is `-`; `<m>` is `d` (dense input) or `s` (sparse), ignored h
 * `cmp <a> <b>`                         → `<lt|eq|gt> <0|1>`  (`total_cmp`, IEEE `a > b`)
 * `topk <m> <k> | <items>`              → items | `panic`   (also `topk@<isa> …`: same answer)
 * `topk0 <m> <k> | <items>`             → same for the code before the clamp fix
-* `topp <m> <pbits> | <items>`          → items | `skip` (non-finite p or scores)
+* `topp <m> <pbits> | <items>`          → items   (any p and scores, incl. ±inf / NaN)
 * `sort <m> | <items>`                  → items
 * `chain <m> <spec>,<spec>,… | <items>` → items | `panic` | `skip`
-  specs: `k<k>` `p<pbits>` `s` `m<m>.<r>` `g<c>` `t<j>` (temperature `2^j`); `e` = empty chain.
+  specs: `k<k>` `p<pbits>` `s` `m<m>.<r>` `g<c>` `T<tbits>` (temperature bit pattern: `panic` if
+  NaN/negative, `skip` unless 1.0 or an exactly scaling power of two); `e` = empty chain.
 -/
 namespace RtenVerif.Driver.C31
 open RtenVerif.Driver RtenVerif.Filter
@@ -37,7 +38,7 @@ def parseSpec (w : String) : Option Spec :=
   else if w.startsWith "k" then rest.toNat?.map .topK
   else if w.startsWith "p" then rest.toNat?.map .topP
   else if w.startsWith "g" then rest.toNat?.map .idGe
-  else if w.startsWith "t" then rest.toInt?.map .temp
+  else if w.startsWith "T" then rest.toNat?.map .temp
   else if w.startsWith "m" then
     match rest.splitOn "." with
     | [a, b] => do let m ← a.toNat?; let r ← b.toNat?; pure (.idMod m r)
